@@ -49,6 +49,26 @@ theorem processACRH_eq (icfg : ICfg) (buf : Buf) (reqHdrs : HdrMap) (debug : Boo
       cases hs : (icfg.allowedReqHdrs.size == 0) <;> cases hk : Headers.check icfg.allowedReqHdrs acrh <;>
       cases he : icfg.acah.isEmpty <;> simp [hs, hk, he]
 
+/-- `handleNonCORS` as translated = as modelled. -/
+theorem handleNonCORS_eq (icfg : ICfg) (h : HdrMap) (isOPTIONS : Bool) :
+    Gen.Pipeline.handleNonCORS icfg h isOPTIONS = Serve.handleNonCORS icfg h isOPTIONS := by
+  unfold Gen.Pipeline.handleNonCORS Serve.handleNonCORS
+  cases isOPTIONS <;> cases icfg.pnaNoCors <;> cases icfg.tree.isEmpty <;> cases icfg.aceh <;> simp
+
+/-- `handleCORSActual` as translated = as modelled with the model's own origin decision (the caller passes
+`headers.First`'s one-element slice). -/
+theorem handleCORSActual_eq (icfg : ICfg) (h : HdrMap) (origin : Bytes) (isOPTIONS : Bool) :
+    Gen.Pipeline.handleCORSActual icfg h origin [origin] isOPTIONS =
+      Serve.handleCORSActual (modelDec icfg) icfg h origin isOPTIONS := by
+  unfold Gen.Pipeline.handleCORSActual Serve.handleCORSActual GoRt.parse modelDec
+  cases hp : Lex.parse origin with
+  | none =>
+    cases isOPTIONS <;> cases icfg.pnaNoCors <;> cases icfg.tree.isEmpty <;> cases icfg.credentialed <;>
+      cases icfg.aceh <;> simp [hp]
+  | some o =>
+    cases isOPTIONS <;> cases icfg.pnaNoCors <;> cases icfg.tree.isEmpty <;> cases icfg.credentialed <;>
+      cases hc : Tree.contains icfg.tree o <;> cases icfg.aceh <;> simp [hp, hc]
+
 /-- The four decision steps of the preflight pipeline, as translated from the working tree, are the modelled ones. -/
 theorem pipeline_eq (icfg : ICfg) (buf : Buf) (reqHdrs : HdrMap) (origin acrm : Bytes) (debug : Bool) :
     Gen.Pipeline.processOriginForPreflight icfg buf origin [origin] = Serve.processOriginForPreflight (modelDec icfg) icfg buf origin ∧
@@ -57,6 +77,12 @@ theorem pipeline_eq (icfg : ICfg) (buf : Buf) (reqHdrs : HdrMap) (origin acrm : 
     Gen.Pipeline.processACRH icfg buf reqHdrs debug = Serve.processACRH (modelDec icfg) icfg buf reqHdrs debug :=
   ⟨processOriginForPreflight_eq icfg buf origin, processACRPN_eq icfg buf reqHdrs, processACRM_eq icfg buf acrm,
     processACRH_eq icfg buf reqHdrs debug⟩
+
+/-- The two handlers of requests that are not preflights, as translated from the working tree, are the modelled ones. -/
+theorem handlers_eq (icfg : ICfg) (h : HdrMap) (origin : Bytes) (isOPTIONS : Bool) :
+    Gen.Pipeline.handleNonCORS icfg h isOPTIONS = Serve.handleNonCORS icfg h isOPTIONS ∧
+    Gen.Pipeline.handleCORSActual icfg h origin [origin] isOPTIONS = Serve.handleCORSActual (modelDec icfg) icfg h origin isOPTIONS :=
+  ⟨handleNonCORS_eq icfg h isOPTIONS, handleCORSActual_eq icfg h origin isOPTIONS⟩
 
 end Translated
 end Cors
